@@ -3,7 +3,7 @@
 From Coq Require Import NArith ZArith List Bool.
 Import ListNotations.
 Require Import UV.Gen.Consts UV.Mcount.Model UV.Mcount.Forest UV.Mcount.PlainStep UV.Mcount.PlainProofs
-  UV.Mcount.Restore UV.Mcount.SelectSpec UV.Mcount.Select UV.Mcount.Embed UV.Mcount.EmbedMore UV.Mcount.Check UV.Mcount.SelectSpec2 UV.Mcount.Select2.
+  UV.Mcount.Restore UV.Mcount.SelectSpec UV.Mcount.Select UV.Mcount.Embed UV.Mcount.EmbedOver UV.Mcount.EmbedMore UV.Mcount.Check UV.Mcount.SelectSpec2 UV.Mcount.Select2.
 Local Open Scope N_scope.
 
 (* The filter state after a function returns equals the state before it was called - for EVERY
@@ -141,3 +141,9 @@ Theorem C05_method_independent_filters_triggers : forall tg szf fm hc gd thr ms 
   out (fst (exec (fcfg2 tg szf fm hc gd thr ms CYG) (flat_forest f) (init, []))).
 Proof. exact method_independent_sel2. Qed.
 Print Assumptions C05_method_independent_filters_triggers.
+
+(* ... and for call forests of any depth, also beyond --max-stack *)
+Theorem C05_nested_any_configuration_any_depth : forall c, no_switch c -> forall f, all_ended f ->
+  scan 0 (out (fst (exec c (flat_forest f) (init, [])))) = Some 0.
+Proof. exact nested_any_cfg_any_depth. Qed.
+Print Assumptions C05_nested_any_configuration_any_depth.
